@@ -331,6 +331,9 @@ def run(ctx):
     from rules import c08 as _c08
 
     _c08.r08_5_registration(ctx)  # one method per selector: duplicate signatures and selector collisions are refused (shared with C08)
+    from rules import c12 as _c12
+
+    _c12.r12_2b_named_ints(ctx)  # transaction type names keep their AVM numbers when constants are assembled (shared with C12)
     return (
         "Abstract evaluation of the router's argument-decoding and glue builders on symbolic parameter lists (0..20 plain parameters, transactions in any position, with and "
         "without ABI output, both conventions): application-argument indices, the 15-argument tuple cutoff, transaction index arithmetic and type asserts, frame cells, "
